@@ -839,6 +839,7 @@ func groupSpellings() {
 	zs.add("R", prim("int32"), 2, "required")
 	zs.add("S", prim("string"), 3, "required")
 	zs.add("E2", sref(em), 4, "required")
+	zs.add("E3", sref(em), 6, "required") // same offset and same Go type as E2
 	zs.add("T", prim("int64"), 5, "required")
 	// struct annotations: bare, package qualified, pointer, in containers
 	s := newStruct("spellings")
